@@ -24,8 +24,10 @@ model computes (`Model.App.draw`), the renderer is the transcription of the repa
   each cell holds the fold of the writes (`Spec.Window`: clip region, origin + offset, reading-order
   layouts) that hit it since the buffers were allocated, in call order; a never-hit cell shows blank
   in the default style.
-* `app_cursor`, `showCursor_position`, `showCursor_in_screen` — the cursor clause; `Window.ShowCursor`
-  is origin + offset with **no clipping** (`Witness/C11ShowCursor.lean`).
+* `app_cursor`, `app_cursor_always`, `showCursor_position`, `showCursor_in_screen` — the cursor clause
+  (through size changes too: the first refresh of a non-empty screen puts the cursor right whatever
+  the terminal did with it); `Window.ShowCursor` is origin + offset with **no clipping**
+  (`Witness/C11ShowCursor.lean`).
 -/
 import VaxisModel.Lemmas.AppSys
 import VaxisModel.Lemmas.AppSpec
@@ -144,6 +146,29 @@ theorem app_cursor (X : Ctx) (s : Sys) (hi : Inv X s) (hc : CursorAs s.t s.v.cur
   | resize cols rows g =>
     have hs : sameSize s.v cols rows = true := by simpa [isFrame] using hf
     simp only [sysStep, endFrame, hs, if_true]; rfl
+
+/-- **The cursor clause through every step, size changes included.**  `CurInv` = the terminal shows
+    the cursor as last rendered, or a refresh of a non-empty screen is pending and only the cursor's
+    visibility is known (the terminal may have moved it when its size changed).  Every step keeps
+    `CurInv`, and after every frame — in particular after the first frame that follows a size change,
+    whatever the terminal did with the cursor — the cursor is exactly as last requested. -/
+theorem app_cursor_always (X : Ctx) (s : Sys) (hi : Inv X s) (hc : CurInv s) (op : SysOp) (hok : OpOk X s op)
+    (hsz : ∀ cols rows g, op = .resize cols rows g → sameSize s.v cols rows = false → 1 ≤ cols ∧ 1 ≤ rows) :
+    CurInv (sysStep X s op) ∧
+    (isFrame s op = true → CursorAs (sysStep X s op).t (sysStep X s op).v.cursorLast ∧
+                           (sysStep X s op).v.cursorLast = s.v.cursorNext) := by
+  obtain ⟨h1, h2⟩ := cursor_step_all X s hi hc op hok hsz
+  refine ⟨h1, fun hf => ⟨h2 hf, ?_⟩⟩
+  cases op with
+  | draw d => simp [isFrame] at hf
+  | render => rfl
+  | refresh => rfl
+  | resize cols rows g =>
+    have hs : sameSize s.v cols rows = true := by simpa [isFrame] using hf
+    simp only [sysStep, endFrame, hs, if_true]; rfl
+
+/-- At start-up the cursor invariant holds (terminal cursor hidden, nothing requested yet). -/
+theorem init_curInv (cols rows : Nat) : CurInv (Sys.init cols rows) := Or.inl (by simp [CursorAs, Sys.init, Vx.init])
 
 /-! ### Non-vacuity: a concrete run meets every hypothesis -/
 
